@@ -48,7 +48,7 @@ func plKind(c *SegCase, full []XPosting) string {
 	return "general"
 }
 
-func c13Prop(st *CaseStats) func(t *rapid.T) {
+func c13Prop(st *CaseStats, fam int) func(t *rapid.T) {
 	return func(t *rapid.T) {
 		ctx := &Ctx{}
 		defer ctx.Close()
@@ -58,8 +58,13 @@ func c13Prop(st *CaseStats) func(t *rapid.T) {
 		desc := sc.String()
 		for i := range cases {
 			var err error
-			cases[i], err = GenCase(t, ctx, sc, CaseCfg{Family: FamSmall, MaxDocs: 8, MaxIn: 2, HoldAny: true},
-				rapid.SampledFrom([]int{0, 1, 1}).Draw(t, "depth"), fmt.Sprintf("s%d", i))
+			if fam == FamWide && i == 0 {
+				// one >1024-document segment: doc-value readers and iterators cross chunk boundaries
+				cases[i], err = GenCase(t, ctx, sc, CaseCfg{Family: FamWide, MaxIn: 2, HoldAny: true}, rapid.SampledFrom([]int{0, 0, 1}).Draw(t, "depthWide"), "s0")
+			} else {
+				cases[i], err = GenCase(t, ctx, sc, CaseCfg{Family: FamSmall, MaxDocs: 8, MaxIn: 2, HoldAny: true},
+					rapid.SampledFrom([]int{0, 1, 1}).Draw(t, "depth"), fmt.Sprintf("s%d", i))
+			}
 			if err != nil {
 				t.Fatalf("%s: %v", sc, err)
 			}
@@ -376,6 +381,12 @@ func c13Prop(st *CaseStats) func(t *rapid.T) {
 					continue
 				}
 				doc := rapid.IntRange(0, c.Exp.N-1).Draw(t, "dvDoc")
+				if c.Exp.N > 1024 && rapid.Bool().Draw(t, "dvBoundary") {
+					doc = rapid.SampledFrom([]int{0, 1023, 1024, 1025, 2047, 2048, c.Exp.N - 1}).Draw(t, "dvBoundaryDoc")
+					if doc >= c.Exp.N {
+						doc = c.Exp.N - 1
+					}
+				}
 				hist += fmt.Sprintf(" DV%d.visit(%d)", ri, doc)
 				if err := checkDVVisit(r.r, c.Exp, r.fields, uint64(doc)); err != nil {
 					fail("%v", err)
@@ -462,5 +473,11 @@ func checkDVVisit(r segment.DocumentValueReader, exp *XSeg, fields []string, doc
 func TestC13(t *testing.T) {
 	st := NewStats("C13", c13Rule)
 	defer st.Flush()
-	rapid.Check(t, c13Prop(st))
+	rapid.Check(t, c13Prop(st, FamSmall))
+}
+
+func TestC13Wide(t *testing.T) {
+	st := NewStats("C13Wide", c13Rule)
+	defer st.Flush()
+	rapid.Check(t, c13Prop(st, FamWide))
 }
